@@ -546,6 +546,7 @@ func execReaderCase(c *RCase, arch int, emit func(interface{})) {
 		emit(MechEvent{Ev: "RMech", Case: c.ID, M: "hdr", A: staging})
 	}
 	var u readerUnderTest
+	var dictBuf []byte
 	have := false
 	var prevRest func() int // how much of the previous segment's source is unread (caller-owned sources)
 	prevVal := 0
@@ -558,7 +559,16 @@ func execReaderCase(c *RCase, arch int, emit func(interface{})) {
 		}
 		var dict []byte
 		if seg.Dict != nil {
-			dict = seg.Dict.Bytes()
+			// one buffer serves every dictionary of the case that fits: the next dictionary replaces
+			// the previous one in place (same address, same length where the lengths agree), as a
+			// caller does whose dictionary is, say, the previous message
+			nd := seg.Dict.Bytes()
+			if cap(dictBuf) < len(nd) {
+				dictBuf = make([]byte, len(nd))
+			}
+			dictBuf = dictBuf[:len(nd)]
+			copy(dictBuf, nd)
+			dict = dictBuf
 		}
 		multi := seg.Multi && !seg.Members
 		// the oracles see what the source will really serve
